@@ -1,6 +1,7 @@
 package an
 
 import (
+	"strings"
 	"go/constant"
 	"go/token"
 	"go/types"
@@ -19,7 +20,7 @@ import (
 // repository the result is exact.
 
 type gop struct {
-	kind byte // '+', '*', '/', '%', 'T' (table lookup)
+	kind byte // '+', '*', '/', '%', 'm' (min with c), 'M' (max with c), 'T' (table lookup)
 	c    int64
 	tab  *gtable
 }
@@ -132,6 +133,14 @@ func (e gexpr) eval(v int64, bits int) (int64, bool) {
 				return 0, false
 			}
 			v %= o.c
+		case 'm':
+			if o.c < v {
+				v = o.c
+			}
+		case 'M':
+			if o.c > v {
+				v = o.c
+			}
 		case 'T':
 			if o.tab.keyed != nil {
 				v = o.tab.keyed[v]
@@ -271,6 +280,24 @@ func (g *GateResult) derive(v ssa.Value, depth int) *gexpr {
 		}
 	case *ssa.ChangeType:
 		return g.derive(x.X, depth+1)
+	case *ssa.Call:
+		// min(e, c) / max(e, c): monotone
+		if bi, ok := x.Call.Value.(*ssa.Builtin); ok && (bi.Name() == "min" || bi.Name() == "max") && len(x.Call.Args) == 2 {
+			k := byte('m')
+			if bi.Name() == "max" {
+				k = 'M'
+			}
+			if c, ok := intConst(x.Call.Args[1]); ok {
+				if e := g.derive(x.Call.Args[0], depth+1); e != nil {
+					return e.with(k, c)
+				}
+			}
+			if c, ok := intConst(x.Call.Args[0]); ok {
+				if e := g.derive(x.Call.Args[1], depth+1); e != nil {
+					return e.with(k, c)
+				}
+			}
+		}
 	}
 	return nil
 }
@@ -355,6 +382,21 @@ func (g *GateResult) atomOf(cond ssa.Value) (*atom, bool) {
 		}
 		neg = !neg
 		cond = u.X
+	}
+	if call, ok := cond.(*ssa.Call); ok {
+		// slices.Contains(<literal of integer constants>, e): membership in a constant set
+		if f := call.Call.StaticCallee(); f != nil && len(call.Call.Args) == 2 && (strings.HasPrefix(f.String(), "slices.Contains[") || f.String() == "slices.Contains") {
+			if keys, ok := constIntSlice(call.Call.Args[0]); ok {
+				if e := g.derive(call.Call.Args[1], 0); e != nil {
+					a := &atom{e: e, op: token.EQL, keys: keys}
+					if neg {
+						a.op = token.NEQ
+					}
+					return a, true
+				}
+			}
+			return nil, false
+		}
 	}
 	if call, ok := cond.(*ssa.Call); ok && g.InModule != nil {
 		if f := call.Call.StaticCallee(); f != nil && g.InModule(f) && len(call.Call.Args) == 1 && len(f.Params) == 1 && len(f.Blocks) > 0 {
@@ -788,6 +830,65 @@ func AnalyseGate(fn *ssa.Function, subjects map[ssa.Value]bool, defBlock *ssa.Ba
 		}
 	}
 	return g
+}
+
+// constIntSlice: v is a slice literal of integer constants (`[]int{16, 20, 24}`): a slice of
+// a local array all of whose elements are stored once, with constants, and nothing else.
+func constIntSlice(v ssa.Value) (map[int64]int64, bool) {
+	sl, ok := v.(*ssa.Slice)
+	if !ok || sl.Low != nil || sl.High != nil {
+		return nil, false
+	}
+	al, ok := sl.X.(*ssa.Alloc)
+	if !ok {
+		return nil, false
+	}
+	at, ok := al.Type().Underlying().(*types.Pointer).Elem().Underlying().(*types.Array)
+	if !ok || at.Len() > 4096 {
+		return nil, false
+	}
+	vals := map[int64]int64{}
+	stored := map[int64]bool{}
+	for _, r := range *al.Referrers() {
+		switch x := r.(type) {
+		case *ssa.DebugRef:
+		case *ssa.Slice:
+			if x != sl {
+				return nil, false
+			}
+		case *ssa.IndexAddr:
+			i, ok := intConst(x.Index)
+			if !ok || stored[i] {
+				return nil, false
+			}
+			for _, rr := range *x.Referrers() {
+				st, ok := rr.(*ssa.Store)
+				if !ok || st.Addr != ssa.Value(x) {
+					return nil, false
+				}
+				c, ok := intConst(st.Val)
+				if !ok {
+					return nil, false
+				}
+				vals[c] = 1
+				stored[i] = true
+			}
+		default:
+			return nil, false
+		}
+	}
+	if int64(len(stored)) != at.Len() {
+		vals[0] = 1 // an element left at its zero value
+	}
+	// the slice itself must not be written through or handed on before the call: its only use is the call
+	for _, r := range *sl.Referrers() {
+		if _, ok := r.(ssa.CallInstruction); !ok {
+			if _, dbg := r.(*ssa.DebugRef); !dbg {
+				return nil, false
+			}
+		}
+	}
+	return vals, true
 }
 
 // flagSets: cond is (a negation of) a φ of boolean constants in a block that is b or
